@@ -68,7 +68,9 @@ def judge(ctx, cases):
             allcls = sorted(a for a in peers if cls(a) and a != "Match.printed")
             suffix = "" if dev == allcls else " only:" + ",".join(dev)
             recs.append({"api": "jp.Script[%s data]" % name, "kind": kind, "locus": locus_str(loc, suffix),
-                         "witness": {"script": ev["text"], "elem": show(ev["elem"]), "root": show(ev["root"])},
+                         "witness": dict({"script": ev["text"], "elem": show(ev["elem"]), "root": show(ev["root"])},
+                                         **({"members k/j as": {"A": "Go structs / fixed-size arrays", "B": "pointers to structs / typed slices",
+                                                                  "C": "struct, and j = [that struct]"}[ev["flv"]]} if ev.get("flv") else {})),
                          "case": case, "cid": ev.get("cid"), "sz": ev.get("sz"),
                          "detail": {"expected": m["exp"], "got": {0: "not selected", 1: "selected", 2: "panic"}.get(m["got"], m["got"]),
                                     "forms": [loc[3], loc[4]], "routes": sorted(m["as"]), "panic": m["m"] or None}})
@@ -104,6 +106,8 @@ def show(a):
         return [show(x) for x in a["v"]]
     if t == "obj":
         return {bytes(k).decode("latin-1"): show(v) for k, v in zip(a["k"], a["v"])}
+    if t == "biglist":
+        return {"list of": a["n"], "all": show(a["fill"]), "except member": a["at"], "=": show(a["v"])}
     return "<%s>" % t
 
 
